@@ -108,7 +108,6 @@ fn position_inside(src: &str, line: u32, col: u32) -> bool {
 pub const RISK_KNOWN_DEFECTS: &[&str] = &[
     "for ((let) of []) {}",
     "x = { 'f g': 2 };",
-    "x = `\\n\\u0041${'\\n'}`;",
     "x = 1..toString();", "x = 1e21.a;", "x = 0x10.a;",
 ];
 const RISK: &[&str] = &[
@@ -179,7 +178,8 @@ impl C19 {
         };
         if interner.len() != len_after_first && ascii_plain {
             let extra = interned_since(&interner, len_after_first);
-            return CaseOut::fail(src.to_string(), "parsing the printed form interned new strings", format!("printed:\n{p1}\nnew: {extra:?}"));
+            let short: Vec<String> = extra.iter().take(3).map(|x| x.chars().take(12).collect()).collect();
+            return CaseOut::fail(src.to_string(), format!("parsing the printed form interned new strings: {short:?}"), format!("printed:\n{p1}\nnew: {extra:?}"));
         }
         let p2 = second.print(&interner);
         if p2 != p1 {
